@@ -52,3 +52,34 @@ Proof.
   - eexists. split; vm_compute; reflexivity.
   - intros l [<-|[<-|[<-|[]]]]; vm_compute; reflexivity.
 Qed.
+Print Assumptions C10_unlocked_get_refuted.
+
+(* The memo of compiled functions under threads (Model/Memo.v).  The source keeps one table - functools' cache - between
+   the argument freezing and the traced function, and nothing else remembers calls (Gen/GenFreeze.v:
+   gen_memo_is_functools_only, regenerated from util/lru_cache.py:lru_cache on every run).  For a memo that publishes a key
+   and its result together: whatever the number of threads, their calls and the interleaving of lookups, computations and
+   publications, every call is handed the result of ITS OWN key, and the table only ever holds such pairs.  A memo that
+   remembers the last call in two cells written one after the other does not have this property: the schedule below
+   leaves the key of one call next to the result of another, and a later call gets it. *)
+From EinxV Require Import Gen.GenFreeze Model.Memo Proofs.MemoProofs.
+Theorem C10_the_memo_is_functools_only : gen_memo_is_functools_only = true.
+Proof. reflexivity. Qed.
+Print Assumptions C10_the_memo_is_functools_only.
+
+Theorem C10_atomic_memo_is_transparent_under_every_interleaving :
+  forall (f : nat -> nat) (progs : list (list nat)) (sched : list nat),
+  good f (run f ([], map (fun p => {| todo := p; pending := None; got := [] |}) progs) sched).
+Proof.
+  intros f progs sched. apply atomic_memo_is_transparent. split; [intros k v []|].
+  apply Forall_forall. intros t Ht. apply in_map_iff in Ht as [p [<- _]]. intros k v [].
+Qed.
+Print Assumptions C10_atomic_memo_is_transparent_under_every_interleaving.
+
+Theorem C10_two_step_memo_refuted :
+  let f := fun k => (10 * k)%nat in
+  let ts := [{| todo2 := [1%nat]; stage := None; got2 := [] |}; {| todo2 := [2%nat]; stage := None; got2 := [] |};
+             {| todo2 := [2%nat]; stage := None; got2 := [] |}] in
+  (* thread 0 looks 1 up and writes the key; thread 1 does its whole call for 2; thread 0 writes its result; thread 2 asks for 2 *)
+  exists t, nth_error (snd (run2 f ((None, 0%nat), ts) [0; 0; 1; 1; 1; 0; 2]%nat)) 2 = Some t /\ got2 t = [(2, 10)]%nat.
+Proof. eexists. split; vm_compute; reflexivity. Qed.
+Print Assumptions C10_two_step_memo_refuted.
